@@ -736,7 +736,13 @@ pub fn usability_probe(conn: &mut Conn<'_, '_>) {
 }
 
 pub fn final_phase(session: &mut Session<'_>, mut drained: bool) {
-    with(|w| w.benign = true);
+    with(|w| {
+        w.benign = true;
+        if !drained && !w.cut && w.tape.chance(1, 4) {
+            w.final_small_rm = Some([1u16, 2, 3][w.tape.choose(3) as usize]);
+            w.probe("final_reconnect_with_small_receive_maximum");
+        }
+    });
     let mut attempts = 0;
     while !drained && attempts < 3 {
         attempts += 1;
